@@ -163,3 +163,10 @@ def run(ctx):
         )
     if seen < 10:
         raise AnalysisError(f"only {seen} Value classes with get_hash/serialize found", "Value")
+
+    # ---- C16.6 hashes are functions of the hashed value alone ------------------------------------------
+    r6 = ctx.rule("C16.6", "no hash function reads module-level mutable state (memo tables)", floor=10)
+    from ..flow import hash_purity_obligations
+
+    for construct, ok, msg, rel_, line in hash_purity_obligations(repo):
+        r6.check(ok, construct, msg, rel_, line)
